@@ -284,22 +284,76 @@ def d4(ctx, rep):
     rep.floor('D4.enum', 'concrete univariate families', n, 8)
     init = prog.method(UNI, '__init__')
     st = [s for s in walk_no_nested(init.node) if isinstance(s, ast.Assign) and any(is_self_attr(t, init.self_name, 'candidates') for t in s.targets)]
-    good = False
-    if st:
+    cp = 'candidates'
+
+    def is_sel(e):
+        return isinstance(e, ast.Call) and call_name(e) == '_select_candidates'
+
+    def is_cp(e):
+        return isinstance(e, ast.Name) and e.id == cp
+
+    def truth_of_cp(t):
+        """+1: the test is `candidates` (truthy), -1: `not candidates` / `candidates is None` / `len(candidates) == 0`; None otherwise."""
+        if is_cp(t):
+            return 1
+        if isinstance(t, ast.UnaryOp) and isinstance(t.op, ast.Not):
+            r = truth_of_cp(t.operand)
+            return -r if r else None
+        if isinstance(t, ast.Compare) and len(t.ops) == 1 and is_cp(t.left) and isinstance(t.comparators[0], ast.Constant) and t.comparators[0].value is None:
+            return -1 if isinstance(t.ops[0], ast.Is) else (1 if isinstance(t.ops[0], ast.IsNot) else None)
+        return None
+
+    fallback = None      # the _select_candidates(...) call used when no explicit list is given
+    verdict = None       # 'ok' / 'bad:<why>' / None (not recognised)
+    if len(st) == 1:
         v = st[0].value
-        if isinstance(v, ast.BoolOp) and isinstance(v.op, ast.Or) and len(v.values) == 2 and isinstance(v.values[0], ast.Name) \
-                and v.values[0].id == 'candidates' and isinstance(v.values[1], ast.Call) and call_name(v.values[1]) == '_select_candidates':
-            a = v.values[1].args
-            kws = {k.arg: k.value for k in v.values[1].keywords}
-            good = (len(a) == 2 and [getattr(x, 'id', None) for x in a] == ['parametric', 'bounded']) or (
-                getattr(kws.get('parametric'), 'id', None) == 'parametric' and getattr(kws.get('bounded'), 'id', None) == 'bounded')
-        if isinstance(v, ast.IfExp):
-            good = None
-    if good is None:
-        rep.undecided('D4.enum', init, st[0], 'candidate default not recognised', construct='explicit list or filters')
+        if isinstance(v, ast.BoolOp) and isinstance(v.op, ast.Or) and len(v.values) == 2 and is_cp(v.values[0]) and is_sel(v.values[1]):
+            fallback, verdict = v.values[1], 'ok'
+        elif isinstance(v, ast.IfExp) and truth_of_cp(v.test):
+            yes, no = (v.body, v.orelse) if truth_of_cp(v.test) > 0 else (v.orelse, v.body)
+            if is_cp(yes) and is_sel(no):
+                fallback, verdict = no, 'ok'
+            elif is_sel(yes) and is_cp(no):
+                verdict = 'bad:the filters are applied when an explicit list is given and the (empty) list is kept otherwise'
+        elif is_cp(v):
+            # if not candidates: candidates = _select_candidates(...)   before the store
+            pre = [s_ for s_ in walk_no_nested(init.node) if isinstance(s_, ast.If) and truth_of_cp(s_.test) and s_.lineno < st[0].lineno]
+            for s_ in pre:
+                branch = s_.body if truth_of_cp(s_.test) < 0 else s_.orelse
+                other = s_.orelse if truth_of_cp(s_.test) < 0 else s_.body
+                sets = [a_ for a_ in branch if isinstance(a_, ast.Assign) and any(is_cp(t_) for t_ in a_.targets) and is_sel(a_.value)]
+                wrong = [a_ for a_ in other if isinstance(a_, ast.Assign) and any(is_cp(t_) for t_ in a_.targets) and is_sel(a_.value)]
+                if sets:
+                    fallback, verdict = sets[0].value, 'ok'
+                elif wrong:
+                    verdict = 'bad:the filters replace an explicit candidate list'
+            if verdict is None and not any(isinstance(s_, ast.Assign) and any(is_cp(t_) for t_ in s_.targets) for s_ in walk_no_nested(init.node)):
+                verdict = 'bad:without an explicit list no candidates are derived from the filters (parametric, bounded)'
+        elif is_sel(v):
+            verdict = 'bad:the explicit candidate list is ignored'
+    elif len(st) == 2 and isinstance(getattr(st[0], '_parent', None), ast.If) and st[0]._parent is getattr(st[1], '_parent', None) and truth_of_cp(st[0]._parent.test):
+        iff = st[0]._parent
+        yes, no = (iff.body, iff.orelse) if truth_of_cp(iff.test) > 0 else (iff.orelse, iff.body)
+        vy = [x.value for x in st if x in yes]
+        vn = [x.value for x in st if x in no]
+        if vy and vn and is_cp(vy[0]) and is_sel(vn[0]):
+            fallback, verdict = vn[0], 'ok'
+        elif vy and vn and is_sel(vy[0]) and is_cp(vn[0]):
+            verdict = 'bad:the filters are applied when an explicit list is given and the (empty) list is kept otherwise'
+    if verdict == 'ok' and fallback is not None:
+        a = fallback.args
+        kws = {k.arg: k.value for k in fallback.keywords}
+        fw = (len(a) == 2 and [getattr(x, 'id', None) for x in a] == ['parametric', 'bounded']) or (
+            getattr(kws.get('parametric'), 'id', None) == 'parametric' and getattr(kws.get('bounded'), 'id', None) == 'bounded') or (
+            len(a) == 1 and getattr(a[0], 'id', None) == 'parametric' and getattr(kws.get('bounded'), 'id', None) == 'bounded')
+        if not fw:
+            verdict = 'bad:the filters (parametric, bounded) are not forwarded to _select_candidates in this order'
+    if verdict is None:
+        rep.undecided('D4.enum', init, st[0] if st else init.node.name, 'how self.candidates is chosen between the explicit list and the filters was not recognised',
+                      construct='explicit list or filters')
     else:
-        rep.check('D4.enum', init, st[0] if st else init.node.name, bool(good), 'explicit candidates win, otherwise the filters (parametric, bounded) are applied',
-                  'the explicit candidate list / the filters are not honoured', construct='explicit list or filters')
+        rep.check('D4.enum', init, st[0] if st else init.node.name, verdict == 'ok', 'explicit candidates win, otherwise the filters (parametric, bounded) are applied',
+                  'the explicit candidate list / the filters are not honoured' + (': ' + verdict[4:] if verdict != 'ok' else ''), construct='explicit list or filters')
 
 
 def d5(ctx, rep):
